@@ -692,7 +692,13 @@ fn big_class_rules(k: usize) -> Rules {
             if (i + j) % 3 == 0 {
                 let c1 = vec![1000 + i * 2, 1001 + i * 2];
                 let c2 = vec![5000 + j];
-                classes.push((c1, c2, v3(((i % 120) as i16) + 1, if k % 3 == 2 { (j % 50) as i16 } else { 0 }, 0), ZERO));
+                // the second variant carries device tables in both value records (different ones per class pair)
+                let (v1, v2) = if k % 3 == 1 {
+                    ([((i % 120) as i16) + 1, 0, ((i + j) % 100) as i16 + 1, 0, 0, 0, 0, 0], [0, ((j % 60) as i16) + 1, -(((i * 3 + j) % 100) as i16) - 1, 0, 0, 0, 0, 0])
+                } else {
+                    (v3(((i % 120) as i16) + 1, if k % 3 == 2 { (j % 50) as i16 } else { 0 }, 0), ZERO)
+                };
+                classes.push((c1, c2, v1, v2));
             }
         }
     }
@@ -793,7 +799,7 @@ pub fn main(args: &[String]) {
                 }
                 big_lookup_event(&Rules { pairs, classes: vec![] }, &mut rng, &mut ev, &mut rep);
             }
-            for b in 0..big.div_ceil(2) {
+            for b in 0..big.div_ceil(2) + 1 {
                 rep.evaluations += 1;
                 big_lookup_event(&big_class_rules(b + seed as usize), &mut rng, &mut ev, &mut rep);
             }
